@@ -302,7 +302,9 @@ def override_view(flags, today):
 # ------------------------------------------------------------------ generators
 
 NAMES = ["a", "b", "work", "foo-bar", "x_1", "büro", "T2"]
-VALUES = ["", "", "", "1", "x", "X", "a b", "it's"]
+VALUES = ["", "", "", "1", "x", "X", "a b", "it's", '5"', "'hi'", "hi", "5", '"q"', "q"]
+# values that differ only by a quote character at either end (a quoted value may contain the other kind of quote)
+CONFUSABLE = [("hi", "'hi'"), ("5", '5"'), ("q", '"q"'), ("x", "x'"), ("1", '"1')]
 WORDS = ["foo", "bar", "Lunch", "with", "é", "読む", "x=1", "(", "8:00", "1h", "2020-01-01", "!", "=", "'q'", "\"", "end."]
 
 def spelled_tag(rng, name, value):
@@ -310,8 +312,8 @@ def spelled_tag(rng, name, value):
     n = name if rng.random() < 0.7 else rng.choice([name.upper(), name.capitalize()])
     if value == "":
         s = "#" + n + rng.choice(["", "", "", "="])
-    elif " " in value or "'" in value:
-        q = "\"" if "'" in value or rng.random() < 0.6 else "'"
+    elif " " in value or "'" in value or "\"" in value:
+        q = "'" if "\"" in value else "\"" if "'" in value or rng.random() < 0.6 else "'"
         s = "#%s=%s%s%s" % (n, q, value, q)
     else:
         s = "#%s=%s" % (n, value) if rng.random() < 0.8 else "#%s=\"%s\"" % (n, value)
@@ -355,6 +357,9 @@ def make_doc(rng, anchor, max_records=6, max_entries=5, big=False, nrec=None):
         d.records = [specgen.Record(rng, 2) for _ in range(nrec or rng.randint(13, 40))]
         d.gaps = [[""] for _ in d.records]
     vocab = [(rng.choice(NAMES), rng.choice(VALUES)) for _ in range(rng.choice([2, 3, 4]))]
+    if rng.random() < 0.2:
+        nm = rng.choice(NAMES); a, b = rng.choice(CONFUSABLE)
+        vocab += [(nm, a), (nm, b)]
     pool = [near(rng, anchor) for _ in range(rng.choice([1, 2, 3, 5]))]        # few distinct dates: duplicates and ties for --sort
     for r in d.records:
         r.ymd = rng.choice(pool) if rng.random() < 0.6 else near(rng, anchor)
@@ -400,7 +405,8 @@ def query_tag(rng, vocab):
     n = name if rng.random() < 0.6 else rng.choice([name.upper(), name.capitalize()])
     s = ("#" if rng.random() < 0.5 else "") + n
     if value:
-        if " " in value or "'" in value: s += "=\"%s\"" % value
+        if "\"" in value: s += "='%s'" % value
+        elif " " in value or "'" in value: s += "=\"%s\"" % value
         else: s += "=" + (value if rng.random() < 0.8 else rng.choice(["\"%s\"", "'%s'"]) % value)
     return s
 
